@@ -329,7 +329,10 @@ def save_hdf5(h5path, indent, user_rate, user_name, user_comment, h5mode="a"):
         if idd in ana:
             # Only allow overriding of user data if fit matches.
             # Otherwise, the rating might be wrong.
-            if not np.allclose(indent["fit"], ana[idd]["fit"], equal_nan=True):
+            # (forces are of the order of 1e-9 N, so the default absolute
+            # tolerance of 1e-8 would accept any fit)
+            if not np.allclose(indent["fit"], ana[idd]["fit"],
+                               rtol=1e-8, atol=0, equal_nan=True):
                 raise ValueError("Cannot store rating for different fit in "
                                  "same rating container!")
             out = ana[idd]
